@@ -435,6 +435,44 @@ pub fn run(cli: Cli) -> ! {
                 }
             }
         }
+        // Accumulation on one adapter instance: 1 300 different players log in, then the ones around every
+        // power of two up to 1 024 and the last hundred come back (twice), then twenty with hostile names. Every request
+        // asks about the name of the player of *this* login.
+        {
+            let adapter = passage::adapter::authentication::DynAuthenticationAdapter::from_config(passage::config::AuthenticationAdapter::Mojang(passage::config::MojangAuthentication { server_id: "many".to_string() }))
+                .await
+                .unwrap_or_else(|e| common::machinery(&format!("from_config(authentication): {e}")));
+            let secret = [7u8; 16];
+            let mut all = b"many".to_vec();
+            all.extend_from_slice(&secret);
+            all.extend_from_slice(&pubkey);
+            let hash = minecraft_hex(&sha1(&all));
+            let mut order: Vec<String> = (0..1_300).map(|i| format!("Player_{i}")).collect();
+            for round in 0..2 {
+                let _ = round;
+                for i in [0usize, 1, 2, 255, 256, 511, 512, 1_021, 1_022, 1_023, 1_024, 1_025, 1_026].into_iter().chain(1_200..1_300) {
+                    order.push(format!("Player_{i}"));
+                }
+            }
+            for i in 0..20 {
+                order.push(format!("P&{i}=#?/%"));
+            }
+            for (n, name) in order.iter().enumerate() {
+                log.lock().unwrap().clear();
+                let uuid = Uuid::from_u128(n as u128);
+                let _ = tokio::time::timeout(std::time::Duration::from_secs(5), adapter.authenticate(&client, ("h", 1), 769, (name, &uuid), &secret, &pubkey)).await;
+                requests.fetch_add(1, Ordering::Relaxed);
+                let seen: Vec<String> = log.lock().unwrap().clone();
+                let fault = match seen.as_slice() {
+                    [line] => judge_request(line, name, &hash).map(|(k, t)| (k, format!("{t}; request line {line:?}"))),
+                    other => Some(("request-count".to_string(), format!("{} requests: {other:?}", other.len()))),
+                };
+                if let Some((k, t)) = fault {
+                    rep.violation(Violation { key: format!("{k}:after-many-players"), text: format!("login #{n} on one adapter instance, player {name:?}: {t}"), replay: json!({"accumulation": "many-players", "n": n}), weight: 1 });
+                    break;
+                }
+            }
+        }
         // A session server that fails: refusals, server errors, dropped connections. Whether and how often
         // the adapter asks again is its business; every request it sends must still be the one request the
         // statement describes.
